@@ -105,7 +105,12 @@ TEXT = {
           "history of the htlc proxy flag up to length 4 followed by a proxy unlock and an own unlock, the flag read back "
           "through the RPC and the storage getter = the last call; bridge unwrap requests with amounts up to 2^256-1 and "
           "signatures made for a request that differs in one field from the presented one, judged by the harness's own "
-          "encoding of the signed message) and model-free monitors on the real storage and blocks.",
+          "encoding of the signed message) and model-free monitors on the real storage and blocks. Joint theorem "
+          "(C10Joint.backed_joint): all contracts side by side, every receive of every method - modelled, or an arbitrary "
+          "method through the VM skeleton - interleaved arbitrarily; every contract stays backed provided unmodelled methods "
+          "do not lower balance - liabilities (KeepsBacking, discharged for reward Update incl. the deletion of cancelled "
+          "stake entries, CollectReward, Donate, legacy registration; hypothesis for liquidity administration / spork "
+          "methods, of which BurnZnn provably violates it); a receive touches only its own contract (AST facts).",
   "design_ref": "§3 C10",
   "note": "Reward bookkeeping, liquidity reward pools, bridge wrap/fees/administration are outside the models (observed "
           "outcomes only); lock periods are parameters (theorems hold for all values, production values regenerated from "
@@ -168,7 +173,13 @@ TEXT = {
           "advanced by exactly one (the received send is marked, the next queued send is next in line); for a non-token "
           "contract the refund of whatever is next in line is always accepted (it cannot fail for lack of funds), so no "
           "accepted call can wedge the inbox at the VM-skeleton level; the token contract (methods modelled) always has an "
-          "accepted outcome when the zero token standard has no storage entry. Kernel-checked on a line-by-line model of "
+          "accepted outcome when the zero token standard has no storage entry. Per method (C09Effect, over the contract "
+          "state machines of C10): an applied receive of plasma / stake / htlc / pillar / sentinel / liquidity-stake / "
+          "bridge-unwrap methods leaves exactly the entry the call asked for (amount, owner, beneficiary, lock times, hash "
+          "lock - field by field), every other entry as it was, the balance moved by the sent amount minus the payouts; a "
+          "refused one leaves the storage as it was and refunds exactly the amount; tied by the contract stream (10 "
+          "histories here, 60 under C10) whose asked-effect monitor reads every entry back through the definition getters "
+          "and compares it with the confirmed call. Kernel-checked on a line-by-line model of "
           "the ABI decoder (vm/abi: UnpackMethod, UnpackEmptyMethod, Arguments.Unpack/UnpackValues, toGoType, "
           "lengthPrefixPointsTo, forEachUnpack, readInteger/readBool/readFixedBytes) with every slice expression, every "
           "64-bit int operation and every big.Int->int conversion explicit: for EVERY byte string (up to the runtime's "
